@@ -114,6 +114,8 @@ def configs(tier):
         cfg = {"key": key, "fn": fn, "params": params}
         if fn == "h_cross" and "rank-deficient" not in key:
             cfg["options"] = {"full_rank": True}
+            if tier == "quick" and params.get("cplx") and params.get("use_pca"):
+                cfg["options"]["budget_s"] = 100  # two PCA + one cross SVD on complex symbols: the transform-after-inverse obligations may stay INCONCLUSIVE in the quick tier
         out.append(cfg)
 
     shapes = [(4, 2), (3, 3)] if tier == "quick" else [(4, 2), (3, 3), (5, 3), (3, 4)]
@@ -142,9 +144,11 @@ def configs(tier):
         if tier == "thorough" or cls == "MCA":
             add("h_cross", f"{cls}|pca=1", cls=cls, n=4, p=2, q=2, use_pca=True)
     add("h_cross", "ComplexMCA", cls="ComplexMCA", n=4, p=2, q=2, use_pca=False, cplx=True)
+    add("h_cross", "ComplexMCA|pca=1", cls="ComplexMCA", n=4, p=2, q=2, use_pca=True, cplx=True)
     if tier == "thorough":
         add("h_cross", "CPCCA|alpha=0.5|weights|standardize", cls="CPCCA", n=4, p=2, q=2, alpha=0.5, use_pca=False, weights=True, flags={"standardize": True})
         add("h_cross", "ComplexCPCCA|alpha=0.5", cls="ComplexCPCCA", n=4, p=2, q=2, alpha=0.5, use_pca=False, cplx=True)
+        add("h_cross", "ComplexCPCCA|alpha=0.5|pca=1", cls="ComplexCPCCA", n=4, p=2, q=2, alpha=0.5, use_pca=True, cplx=True)
     else:
         add("h_cross", "CPCCA|alpha=0.5|weights", cls="CPCCA", n=4, p=2, q=2, alpha=0.5, use_pca=False, weights=True)
     return out
